@@ -34,24 +34,26 @@ Proof. destruct Hc as (_ & _ & Hp & _). apply pow2_pos; exact Hp. Qed.
 
 (* ---------- alloc ---------- *)
 Lemma arena_alloc_ok s live n :
-  ainv s live -> 0 < n -> n + a_size c + a_align c <= two64 ->
+  ainv s live -> 0 <= n < two64 ->
   exists s' p, arena_alloc c s n = Some (s', p) /\ a_bytes s' = a_bytes s /\
     ((p = 0 /\ s' = s) \/
      (p <> 0 /\ a_curr s <= a_prev s' /\ p = a_base c + a_prev s' /\ ainv s' (live ++ [mkblk p n]))).
 Proof.
-  intros (Hp & Hcu & HF & HD) Hn Hw.
+  intros (Hp & Hcu & HF & HD) Hn.
   destruct Hc as (HB & HS & Hpow & Hfit).
   pose proof Hal_pos as HA.
   unfold arena_alloc.
+  destruct (n =? 0) eqn:E0.
+  { exists s, 0. split; [reflexivity|]. split; [reflexivity|]. left. auto. }
+  apply Z.eqb_neq in E0.
   rewrite (w64_small (a_base c + a_curr s)) by lia.
   destruct (align_forward_spec (a_base c + a_curr s) (a_align c) Hpow ltac:(lia) ltac:(lia)) as [Hr Hm].
   set (r := align_forward (a_base c + a_curr s) (a_align c)) in *.
   rewrite (w64_small (r - a_base c)) by lia.
   set (off := r - a_base c) in *.
-  rewrite (w64_small (off + n)) by (unfold off; lia).
-  destruct (off + n >? a_size c) eqn:E.
+  destruct ((w64 (off + n) >? a_size c) || (w64 (off + n) <? off)) eqn:E.
   - exists s, 0. split; [reflexivity|]. split; [reflexivity|]. left. auto.
-  - rewrite Z.gtb_ltb in E. apply Z.ltb_ge in E.
+  - apply overflow_test_false in E; [|unfold off; lia | lia]. destruct E as [Ew E]. rewrite Ew.
     assert (Hlt : off <? a_size c = true) by (apply Z.ltb_lt; lia).
     rewrite Hlt.
     eexists. eexists. split; [reflexivity|]. split; [reflexivity|]. right.
@@ -127,7 +129,7 @@ Qed.
 
 (* ---------- realloc ---------- *)
 Lemma arena_realloc_ok s live i b n :
-  ainv s live -> nth_error live i = Some b -> 0 < n -> n + a_size c + a_align c <= two64 ->
+  ainv s live -> nth_error live i = Some b -> 0 < n < two64 ->
   exists s' q, arena_realloc c s (b_addr b) n (b_size b) = Some (s', q) /\
     ((q = 0 /\ a_prev s' = a_prev s /\ a_curr s' = a_curr s /\ a_bytes s' = a_bytes s) \/
      (q <> 0 /\ ainv s' (remove_nth i live ++ [mkblk q n]) /\
@@ -137,7 +139,7 @@ Lemma arena_realloc_ok s live i b n :
        (b_size b < n /\ a_base c + a_curr s <= q /\
         a_bytes s' = bcopy (a_bytes s) q (b_addr b) (b_size b))))).
 Proof.
-  intros Hi Hn Hn0 Hw.
+  intros Hi Hn Hn0.
   destruct (live_ptr_ok _ _ _ _ Hi Hn) as (Hnz & Hok & Hw64 & Hr).
   pose proof Hi as (Hp & Hcu & HF & HD).
   pose proof HF as HF'. rewrite Forall_forall in HF'.
@@ -150,10 +152,9 @@ Proof.
   destruct (b_addr b - a_base c =? a_prev s) eqn:E.
   - (* the most recent allocation: grow or shrink in place *)
     apply Z.eqb_eq in E.
-    rewrite (w64_small (b_addr b - a_base c + n)) by lia.
-    destruct (b_addr b - a_base c + n >? a_size c) eqn:E2.
+    destruct ((w64 (b_addr b - a_base c + n) >? a_size c) || (w64 (b_addr b - a_base c + n) <? b_addr b - a_base c)) eqn:E2.
     + exists s, 0. split; [reflexivity|]. left. auto.
-    + rewrite Z.gtb_ltb in E2. apply Z.ltb_ge in E2.
+    + apply overflow_test_false in E2; [|lia | lia]. destruct E2 as [Ew E2]. rewrite Ew.
       eexists. exists (b_addr b). split; [reflexivity|]. right.
       split; [exact Hnz|]. split; [|left; split; reflexivity].
       pose proof (others_below _ _ _ _ Hi Hn ltac:(lia)) as Ho.
@@ -171,7 +172,7 @@ Proof.
     destruct (n >? b_size b) eqn:E3.
     + (* growing an older block: move *)
       rewrite Z.gtb_ltb in E3. apply Z.ltb_lt in E3.
-      destruct (arena_alloc_ok s live n Hi Hn0 Hw) as (s' & p & Ha & Hby & [[-> ->] | (Hpnz & Hge & Hpa & Hinv)]).
+      destruct (arena_alloc_ok s live n Hi ltac:(lia)) as (s' & p & Ha & Hby & [[-> ->] | (Hpnz & Hge & Hpa & Hinv)]).
       * rewrite Ha. cbn. exists s, 0. split; [reflexivity|]. left. auto.
       * rewrite Ha.
         assert (Ep : (p =? 0) = false) by (apply Z.eqb_neq; exact Hpnz).
@@ -200,13 +201,13 @@ Qed.
 
 (* ---------- one step and whole histories ---------- *)
 Lemma astep_ok s live o :
-  ainv s live -> aop_dom c o ->
+  ainv s live -> aop_usize o ->
   exists s' live', astep c (s, live) o = Some (s', live') /\ ainv s' live'.
 Proof.
   intros Hi Hd. destruct o as [z n | i | z i n | | a v]; cbn [astep].
   - (* alloc / alloc0 *)
-    destruct Hd as [Hn Hw].
-    destruct (arena_alloc_ok s live n Hi Hn Hw) as (s' & p & Ha & Hby & Hcase).
+    cbn [aop_usize] in Hd. unfold usize in Hd.
+    destruct (arena_alloc_ok s live n Hi Hd) as (s' & p & Ha & Hby & Hcase).
     assert (Hz : exists s2, (if z then arena_alloc0 c s n else arena_alloc c s n) = Some (s2, p) /\
                             a_prev s2 = a_prev s' /\ a_curr s2 = a_curr s').
     { destruct z.
@@ -226,7 +227,7 @@ Proof.
   - (* realloc / realloc0 *)
     destruct (nth_error live i) as [b|] eqn:Hn.
     2:{ eexists. eexists. split; [reflexivity | exact Hi]. }
-    destruct Hd as [Hn0 Hw].
+    cbn [aop_usize] in Hd. unfold usize in Hd.
     destruct (Z.eq_dec n 0) as [-> | Hnz].
     + (* realloc to 0 = dealloc *)
       destruct (arena_dealloc_ok s live i b Hi Hn) as (s' & Hde & _ & Hinv).
@@ -239,7 +240,7 @@ Proof.
       { destruct z; [|exact Hr]. unfold arena_realloc0. rewrite Hr.
         rewrite Z.eqb_refl. cbn [negb]. rewrite andb_false_r. reflexivity. }
       rewrite Hz. cbn [Z.eqb]. eexists. eexists. split; [reflexivity | exact Hinv].
-    + destruct (arena_realloc_ok s live i b n Hi Hn ltac:(lia) Hw) as (s' & q & Hr & Hcase).
+    + destruct (arena_realloc_ok s live i b n Hi Hn ltac:(lia)) as (s' & q & Hr & Hcase).
       assert (Hz : exists s2, (if z then arena_realloc0 c s (b_addr b) n (b_size b)
                                else arena_realloc c s (b_addr b) n (b_size b)) = Some (s2, q) /\
                               a_prev s2 = a_prev s' /\ a_curr s2 = a_curr s').
@@ -264,7 +265,7 @@ Proof.
 Qed.
 
 Lemma arun_ok ops : forall s live,
-  ainv s live -> Forall (aop_dom c) ops ->
+  ainv s live -> Forall aop_usize ops ->
   exists s' live', arun c (s, live) ops = Some (s', live') /\ ainv s' live'.
 Proof.
   induction ops as [|o r IH]; intros s live Hi Hd; cbn [arun].
@@ -283,7 +284,7 @@ Qed.
 End Arena.
 
 (* ---------- theorems in closed form ---------- *)
-Theorem arena_safe_partial_proof : forall c ops, acfg_ok c -> Forall (aop_dom c) ops ->
+Theorem arena_safe_proof : forall c ops, acfg_ok c -> Forall aop_usize ops ->
   exists s live, arun c (arena_init, []) ops = Some (s, live) /\
                  good_blocks (a_base c) (a_size c) (a_align c) live.
 Proof.
@@ -294,18 +295,18 @@ Qed.
 
 (* realloc keeps the first min(old,new) bytes and leaves every other live block untouched *)
 Theorem arena_realloc_preserves_proof : forall c ops s live i b n s' q,
-  acfg_ok c -> Forall (aop_dom c) ops ->
+  acfg_ok c -> Forall aop_usize ops ->
   arun c (arena_init, []) ops = Some (s, live) ->
-  nth_error live i = Some b -> 0 < n -> n + a_size c + a_align c <= two64 ->
+  nth_error live i = Some b -> 0 < n < two64 ->
   arena_realloc c s (b_addr b) n (b_size b) = Some (s', q) -> q <> 0 ->
   (forall k, 0 <= k < Z.min n (b_size b) -> a_bytes s' (q + k) = a_bytes s (b_addr b + k)) /\
   (forall j b', j <> i -> nth_error live j = Some b' ->
      forall k, 0 <= k < b_size b' -> a_bytes s' (b_addr b' + k) = a_bytes s (b_addr b' + k)).
 Proof.
-  intros c ops s live i b n s' q Hc Hd Hrun Hn Hn0 Hw Hre Hq.
+  intros c ops s live i b n s' q Hc Hd Hrun Hn Hn0 Hre Hq.
   destruct (arun_ok c Hc ops arena_init [] (ainv_init c Hc) Hd) as (s0 & l0 & Hr0 & Hi).
   rewrite Hrun in Hr0. inversion Hr0; subst s0 l0. clear Hr0.
-  destruct (arena_realloc_ok c Hc s live i b n Hi Hn Hn0 Hw) as (s2 & q2 & Hre2 & Hcase).
+  destruct (arena_realloc_ok c Hc s live i b n Hi Hn Hn0) as (s2 & q2 & Hre2 & Hcase).
   rewrite Hre in Hre2. inversion Hre2; subst s2 q2. clear Hre2.
   destruct Hcase as [(-> & _) | (_ & _ & [(-> & Hby) | (Hlt & Hge & Hby)])]; [contradiction | |].
   - rewrite Hby. split; intros; reflexivity.
@@ -321,63 +322,11 @@ Proof.
       rewrite E. reflexivity.
 Qed.
 
-(* ---------- refutations on the faithful model ---------- *)
 Definition wit_cfg : acfg := mkacfg 4096 64 8.
 
 Lemma wit_cfg_ok : acfg_ok wit_cfg.
 Proof.
   unfold acfg_ok, wit_cfg, pow2, two64. cbn. repeat split; try lia. exists 3. split; [lia | reflexivity].
-Qed.
-
-(* arena(64,8): alloc(16); alloc(2^64-8): the second block is not inside the buffer *)
-Theorem arena_safe_refuted_proof : ~ arena_safe_full.
-Proof.
-  intros H.
-  pose (ops := [AAlloc false 16; AAlloc false (two64 - 8)]).
-  assert (Hu : Forall aop_usize ops).
-  { unfold ops, aop_usize, usize, two64. repeat constructor; lia. }
-  destruct (arun wit_cfg (arena_init, []) ops) as [[s live]|] eqn:E; [|vm_compute in E; discriminate].
-  specialize (H wit_cfg ops s live wit_cfg_ok Hu E).
-  vm_compute in E. inversion E; subst. clear E.
-  destruct H as (Hin & _ & _).
-  inversion Hin as [|x l H1 H2]; subst. inversion H2 as [|y l' H3 H4]; subst.
-  unfold blk_in, wit_cfg in H3. cbn in H3. lia.
-Qed.
-
-(* ... and the following alloc(8) overlaps the first block *)
-Lemma arena_wrap_overlap :
-  exists s live, arun wit_cfg (arena_init, []) [AAlloc false 16; AAlloc false (two64 - 8); AAlloc false 8] = Some (s, live) /\
-                 ~ pairwise_disjoint live.
-Proof.
-  eexists. eexists. split; [vm_compute; reflexivity|].
-  cbn. unfold blk_disjoint. cbn. intros [H _]. inversion H as [|x l H1 H2]; subst.
-  inversion H2 as [|y l' H3 H4]; subst. cbn in H3. lia.
-Qed.
-
-(* sizes that cannot wrap: alloc(8); Z=alloc(0); B=alloc(8); dealloc(Z); alloc(8) overlaps B *)
-Theorem arena_safe_nowrap_refuted_proof : ~ arena_safe_nowrap.
-Proof.
-  intros H.
-  pose (ops := [AAlloc false 8; AAlloc false 0; AAlloc false 8; ADealloc 1%nat; AAlloc false 8]).
-  assert (Hu : Forall (fun o => match o with
-                     | AAlloc _ n | ARealloc _ _ n => 0 <= n /\ n + a_size wit_cfg + a_align wit_cfg <= two64
-                     | _ => True end) ops).
-  { unfold ops, wit_cfg, two64. cbn. repeat constructor; lia. }
-  destruct (arun wit_cfg (arena_init, []) ops) as [[s live]|] eqn:E; [|vm_compute in E; discriminate].
-  specialize (H wit_cfg ops s live wit_cfg_ok Hu E).
-  vm_compute in E. inversion E; subst. clear E.
-  destruct H as (_ & _ & Hd).
-  cbn in Hd. destruct Hd as (_ & Hd & _). inversion Hd as [|x l H1 H2]; subst.
-  unfold blk_disjoint in H1. cbn in H1. lia.
-Qed.
-
-(* alloc(0) on a full arena trips the bounds check of &self.buffer[offset] *)
-Theorem arena_total_refuted_proof : ~ arena_total_full.
-Proof.
-  intros H.
-  apply (H wit_cfg [AAlloc false 64; AAlloc false 0] wit_cfg_ok).
-  - unfold aop_usize, usize, two64. repeat constructor; lia.
-  - vm_compute. reflexivity.
 Qed.
 
 (* zeroing variants: exactly the new bytes are zeroed, nothing else is written *)
@@ -388,8 +337,8 @@ Proof.
   intros c s n s1 p s0 Ha H0 Hp x. unfold arena_alloc0 in H0. rewrite Ha in H0.
   apply Z.eqb_neq in Hp. rewrite Hp in H0. inversion H0; subst. cbn [a_bytes]. unfold bzero.
   assert (a_bytes s1 = a_bytes s).
-  { unfold arena_alloc in Ha.
-    destruct (_ >? _); [inversion Ha; reflexivity|]. destruct (_ <? _); inversion Ha; reflexivity. }
+  { unfold arena_alloc in Ha. destruct (n =? 0); [inversion Ha; reflexivity|].
+    destruct (_ || _); [inversion Ha; reflexivity|]. destruct (_ <? _); inversion Ha; reflexivity. }
   rewrite H. reflexivity.
 Qed.
 
